@@ -312,7 +312,13 @@ pub fn gen(a: &Args) -> Vec<String> {
         if rng.chance(1, 2) {
             let x = rng.range(1, 3);
             let v = |s: u64| rt(5, vec![slot_arg(s)], vec![]);
-            match rng.below(4) {
+            match rng.below(6) {
+                // open terms under a binder whose bound slot does not occur in the body: the identity pattern `?x == (lam $1 ?b), ?b == (var $1)`
+                // must not match the constant function (the pattern's binder must not capture the free slot)
+                4 => { add(rt(8, vec![lst(vec![sym("b"), num(x), null_app()])], vec![v(x + 3)]), &mut terms, &mut ops, &mut nadd); forced.push(23); forced.push(10); }
+                5 => { let body = rt(7, vec![null_app(), null_app()], vec![v(x + 3), v(x + 4)]);
+                       add(rt(8, vec![lst(vec![sym("b"), num(x), null_app()])], vec![body]), &mut terms, &mut ops, &mut nadd);
+                       add(rt(10, vec![lst(vec![sym("b"), num(x), null_app()]), null_app()], vec![v(x + 3), v(x + 4)]), &mut terms, &mut ops, &mut nadd); forced.push(23); forced.push(4); forced.push(10); }
                 0 => { add(rt(7, vec![null_app(), null_app()], vec![v(x), v(x)]), &mut terms, &mut ops, &mut nadd); forced.push(8); }
                 1 => { add(rt(8, vec![lst(vec![sym("b"), num(x), null_app()])], vec![v(x)]), &mut terms, &mut ops, &mut nadd); forced.push(24); }
                 2 => { let f = rt(0, vec![slot_arg(x), slot_arg(x)], vec![]); add(rt(7, vec![null_app(), null_app()], vec![f.clone(), f]), &mut terms, &mut ops, &mut nadd); forced.push(3); forced.push(22); }
